@@ -283,6 +283,12 @@ func NasDLTransport(psi uint8, inner []byte) []byte {
 
 // NasPDUSessionEstablishmentAccept: IPv4 PDU address, one default QoS rule, session AMBR, S-NSSAI, DNN.
 func NasPDUSessionEstablishmentAccept(psi, pti uint8, ueIP net.IP, sst uint8, sd []byte, dnn string) []byte {
+	return NasPDUSessionEstablishmentAcceptQos(psi, pti, ueIP, sst, sd, dnn, 0)
+}
+
+// NasPDUSessionEstablishmentAcceptQos: the same with `extra` further QoS rules after the default one (each 11 octets: one
+// packet filter matching one remote port), so that the authorized QoS rules IE (LV-E) can exceed 255 octets.
+func NasPDUSessionEstablishmentAcceptQos(psi, pti uint8, ueIP net.IP, sst uint8, sd []byte, dnn string, extra int) []byte {
 	m := nas.NewMessage()
 	m.GsmMessage = nas.NewGsmMessage()
 	m.GsmHeader.SetMessageType(nas.MsgTypePDUSessionEstablishmentAccept)
@@ -296,6 +302,10 @@ func NasPDUSessionEstablishmentAccept(psi, pti uint8, ueIP net.IP, sst uint8, sd
 	a.SelectedSSCModeAndSelectedPDUSessionType.SetPDUSessionType(nasMessage.PDUSessionTypeIPv4)
 	// default QoS rule: id 1, length 6, create new rule + DQR + 1 packet filter (match all, bidirectional), precedence 255, QFI 1
 	qos := []byte{0x01, 0x00, 0x06, 0x31, 0x31, 0x01, 0x01, 0xff, 0x01}
+	for k := 0; k < extra; k++ {
+		// rule id 2+k, 8 octets: create new rule, 1 packet filter (uplink, single remote port), precedence, QFI 1
+		qos = append(qos, byte(2+k), 0x00, 0x08, 0x21, byte(0x20|k%16), 0x03, 0x50, 0x1f, byte(k), byte(10+k%200), 0x01)
+	}
 	a.AuthorizedQosRules.SetLen(uint16(len(qos)))
 	a.AuthorizedQosRules.SetQosRule(qos)
 	a.SessionAMBR.SetLen(6)
@@ -360,6 +370,8 @@ type AmfIdentity struct {
 	Capacity int64
 	SST      uint8
 	SD       []byte
+	// FirstPLMNs: further PLMNs the AMF serves, listed BEFORE the gNB's own in the PLMN Support List
+	FirstPLMNs [][]byte
 }
 
 func (a AmfIdentity) guami() ngapType.GUAMI {
@@ -413,7 +425,14 @@ func NgSetupResponse(a AmfIdentity) []byte {
 		it := ngapType.PLMNSupportItem{}
 		it.PLMNIdentity.Value = aper.OctetString(a.PLMN)
 		it.SliceSupportList.List = []ngapType.SliceSupportItem{{SNSSAI: snssai(a.SST, a.SD)}}
-		ie.Value.PLMNSupportList = &ngapType.PLMNSupportList{List: []ngapType.PLMNSupportItem{it}}
+		ie.Value.PLMNSupportList = &ngapType.PLMNSupportList{}
+		for _, p := range a.FirstPLMNs {
+			o := ngapType.PLMNSupportItem{}
+			o.PLMNIdentity.Value = aper.OctetString(p)
+			o.SliceSupportList.List = []ngapType.SliceSupportItem{{SNSSAI: snssai(a.SST, a.SD)}}
+			ie.Value.PLMNSupportList.List = append(ie.Value.PLMNSupportList.List, o)
+		}
+		ie.Value.PLMNSupportList.List = append(ie.Value.PLMNSupportList.List, it)
 		ies.List = append(ies.List, ie)
 	}
 	return encodeNgap(pdu)
